@@ -77,10 +77,11 @@ CLAIMED = {
             "every argument position on random programs and the real .grad snapshot is compared.",
             NOTE_AUTOJAC, "DESIGN.md §5 C20"),
 
-    "C03": ("Lean 4 theorems over any ordered field (kkt_minimizer, qp_min_unique, dualproj_is_projection, "
+    "C03": ("Lean 4 theorems over any ordered field (kkt_minimizer, qp_min_unique, qp_min_exists [C03c: existence of the "
+            "projection by finite descent over faces, no completeness used], dualproj_is_projection, "
             "upgrad_is_sum_of_projections, no_conflict_identity, ...) + exact-rational correspondence on rational-SVD matrices",
             "The returned weights are proved to be THE minimiser of the regularised QP (KKT certificate, uniqueness by "
-            "positive definiteness), UPGrad the sum of the m projections; the model is executed on matrices whose largest "
+            "positive definiteness, existence for every matrix / preference vector / reg_eps > 0), UPGrad the sum of the m projections; the model is executed on matrices whose largest "
             "singular value is exactly rational and compared with the real aggregators; KKT is also evaluated exactly on "
             "the implementation's own weights.", NOTE_AGG, "DESIGN.md §5 C03, §10"),
     "C04": ("Lean 4 theorems (dualproj/upgrad_nonconflict, minnorm_certificate, mgda_nonconflict, mgda_fw_rate) + the Lean "
@@ -105,7 +106,7 @@ CLAIMED = {
             "Row-permutation invariance is proved for linear, QP-based, TrimmedMean and GradDrop models; MGDA, Krum, CAGrad, "
             "IMTL-G, ConFIG, Aligned-MTL are covered by the exhaustive permutation check (ties excluded).",
             NOTE_AGG, "DESIGN.md §5 C10, §10.3"),
-    "C11": ("Lean 4 theorems (validation decision table rejects_*_iff, scale-invariance of every weighting model, pre-fix "
+    "C11": ("Lean 4 theorems (validation decision tables rejects_*_iff and ctor_rejects_iff, scale-invariance of every weighting model, pre-fix "
             "counter-witness for IMTL-G) + validation-table correspondence and observed totality/purity/homogeneity",
             "The validation table and positive homogeneity of the models are proved; finiteness over 27 orders of "
             "magnitude, dtype preservation, history independence and seeded reproducibility are OBSERVED on the "
